@@ -9,6 +9,7 @@ import RtcModel.Lemmas.StunRfc
 import RtcModel.Lemmas.IcePrio
 import RtcModel.Lemmas.IceCand
 import RtcModel.Lemmas.Turn
+import RtcModel.Lemmas.IceUri
 
 namespace RtcModel.Theorems.C16
 open RtcModel.Stun RtcModel.StunRfc RtcModel.IcePrio RtcModel.IceCand RtcModel.Turn RtcModel.C16Bytes RtcModel.Generated
@@ -162,7 +163,8 @@ example : let m : Msg := ⟨.request, .binding, zeros 12,
 theorem const_turn_channels :
     turnRxChannelLo = 0x4000 ∧ turnRxChannelHi = 0x7FFF ∧ turnChannelFirst = 0x4000 ∧
     turnChannelLast = turnRxChannelHi ∧ turnChannelWrapTo = turnRxChannelLo ∧
-    turnRequestedTransportUdp = 17 ∧ turnDefaultLifetime = 600 := by decide
+    turnRequestedTransportUdp = 17 ∧ turnDefaultLifetime = 600 ∧
+    iceUriDefaultPortPlain = 3478 ∧ iceUriDefaultPortSecure = 5349 := by decide
 
 /-- **channeldata_roundtrip**: a ChannelData frame built by `send_channel_data` for any channel in the
 TURN range and any payload (< 2^16 bytes) is recognised by the receive path as exactly that channel and
@@ -357,6 +359,23 @@ example :
   simp only [Option.some.injEq] at ha
   subst ha
   exact ⟨⟨by decide, by decide⟩, by decide, by simp [T, sockText, Addr.port, showDec, digitChar]⟩
+
+/-! ### ICE server URIs (RFC 7064 / RFC 7065) -/
+
+/-- **ice_server_uri_parse**: every URI of the RFC syntax `scheme ":" host [":" port] ["?transport=" udp|tcp]`
+(schemes stun, stuns, turn, turns; any host without `:` / `?`; any port 0..65535; transport only on
+turn(s)) parses to its kind, host, the explicit or default port (3478 / 5349) and the explicit or default
+transport (udp / tcp for the secure schemes). -/
+theorem ice_server_uri_parse (sc : IceUri.Scheme) (host : Str) (port : Option Nat) (tr : Option IceUri.Tr)
+    (hh1 : ':' ∉ host) (hh2 : '?' ∉ host) (hp : ∀ p, port = some p → p ≤ 65535)
+    (hstun : sc.kind = .stun → tr = none) :
+    IceUri.parse (IceUri.printUri sc host port tr) =
+      .ok ⟨sc.kind, host, port.getD sc.port, tr.getD sc.tr⟩ :=
+  IceUri.parse_printUri sc host port tr hh1 hh2 hp hstun
+
+example : IceUri.printUri .turns "example.org".toList (some 443) (some .udp) = "turns:example.org:443?transport=udp".toList ∧
+    IceUri.printUri .stun "192.0.2.1".toList none none = "stun:192.0.2.1".toList := by
+  constructor <;> simp [IceUri.printUri, IceUri.portPart, IceUri.queryPart, IceUri.Scheme.str, IceUri.Tr.str, showDec, digitChar]
 
 /-! ### alignment -/
 
